@@ -17,25 +17,31 @@ POS = [0.25]        # probability that the old call starts with positional argum
 UNM_CHOICES = [[0, 0, 0.25]]   # probability of a user-controlled leaf, drawn per case
 
 
+BIG = [0.0]         # probability of a wide call: 5-8 fields, all with defaults, 2-3 positional arguments
+
+
 def gen_case(rng):
-    nf = rng.choice([1, 2, 3, 3, 4, 5])
-    ndef = rng.randint(0, nf)                      # the last ndef fields have a default
+    big = rng.random() < BIG[0]
+    nf = rng.randint(5, 8) if big else rng.choice([1, 2, 3, 3, 4, 5])
+    ndef = nf if big else rng.randint(0, nf)       # the last ndef fields have a default
     fields = []
     for i in range(nf):
         d = None
         if i >= nf - ndef:
-            d = ta.gen_val(rng, 2) if rng.random() < 0.4 else rng.randint(0, 3)
+            d = ta.gen_val(rng, 2) if rng.random() < (0.15 if big else 0.4) else rng.randint(0, 3)
         fields.append(d)
     ids = []
     saved = ta.UNM[0]
     ta.UNM[0] = rng.choice(UNM_CHOICES[0])
     try:
-        npos = rng.randint(0, nf) if rng.random() < POS[0] else 0
+        npos = rng.randint(2, 3) if big else (rng.randint(0, nf) if rng.random() < POS[0] else 0)
         pos = [ta.gen_tree(rng, 1, ids) for _ in range(npos)]
         rest = list(range(npos, nf))
         given = [i for i in rest if fields[i] is None or rng.random() < 0.6]
         rng.shuffle(given)
         kws = [(i, ta.gen_tree(rng, 1, ids)) for i in given]
+        # keywords that spell out the default of their field (update removes them when the field still holds it)
+        kws = [(i, ("leaf", fields[i], rng.random() < 0.7)) if isinstance(fields[i], int) and rng.random() < (0.6 if big else 0.35) else (i, t) for i, t in kws]
     finally:
         ta.UNM[0] = saved
     oldv = {}
@@ -240,5 +246,69 @@ def replay_case(case):
     if o["session_exc"] or "error" in o:
         return False
     why = oracle(c, o) or (None if has_unm(c) else positional_oracle(c, o))
+    print("oracle:", why)
+    return why is None
+
+
+def _arg_dump(src):
+    tree = ast.parse(src)
+    f = [n for n in tree.body if isinstance(n, ast.FunctionDef)][0]
+    call = [n for n in ast.walk(f) if isinstance(n, ast.Call) and isinstance(n.func, ast.Name) and n.func.id == "snapshot"][0]
+    return ast.dump(call.args[0]), ast.get_source_segment(src, call.args[0])
+
+
+def run_orders(c):
+    """C09 on a constructor call: fix and update approved together vs one after the other (both orders)"""
+    src, _ = program(c)
+    out = {"source": src, "routes": {}}
+    for name, seq in (("fix,update", [("fix", "update")]), ("update;fix", [("update",), ("fix",)]), ("fix;update", [("fix",), ("update",)])):
+        cur = src
+        try:
+            for flags in seq:
+                r = driver.run_inproc({"test_a.py": cur}, flags, block_black=True)
+                if r["session_exc"]:
+                    raise RuntimeError(r["session_exc"])
+                cur = r["files"]["test_a.py"].decode()
+            out["routes"][name] = _arg_dump(cur)
+        except Exception as e:  # noqa
+            out["routes"][name] = ("error", f"{type(e).__name__}: {e}")
+    return out
+
+
+def orders_oracle(c, o):
+    ref = o["routes"]["fix,update"]
+    for name, got in o["routes"].items():
+        if got[0] == "error":
+            return f"route {name} failed: {got[1]}"
+        if got[0] != ref[0]:
+            return f"{render_old(c)} observed {c['new']}: approving fix and update together gives {ref[1]}, the route {name} gives {got[1]}"
+    return None
+
+
+def check_orders(ctx, n, label="C09"):
+    from .core import pmap
+    saved = POS[0], UNM_CHOICES[0], BIG[0]
+    POS[0], UNM_CHOICES[0], BIG[0] = 0.6, [0], 0.6
+    try:
+        cases = [gen_case(ctx.rng) for _ in range(n)]
+    finally:
+        POS[0], UNM_CHOICES[0], BIG[0] = saved
+    outs = pmap(run_orders, cases, chunksize=4)
+    n2 = 0
+    for c, o in zip(cases, outs):
+        ctx.count(("call-orders", repr(c)), True)
+        n2 += len(c["pos"]) >= 2
+        why = orders_oracle(c, o)
+        if why:
+            ctx.report(f"{label} oracle (constructor call): " + why, {"kind": "call-orders", "case": c, "repr": repr(c)})
+    ctx.coverage["oracle"]["constructor_call_routes"] = {"cases": n, "with_two_or_more_positional_arguments": n2}
+
+
+def replay_orders(case):
+    c = eval(case["repr"])
+    o = run_orders(c)
+    for k, v in o["routes"].items():
+        print(k, "->", v[1])
+    why = orders_oracle(c, o)
     print("oracle:", why)
     return why is None
